@@ -114,6 +114,18 @@ def pair_cases(ck):
               % (k, cls, p, k, cls, cls, cls)
         exp = 'Me%d DEFINITIONS AUTOMATIC TAGS ::= BEGIN\n%sUse%d ::= SEQUENCE { f INTEGER, g BOOLEAN, h IA5String OPTIONAL }\nEND\n' % (k, p, k)
         out.append(('class-field', ['%sUse%d' % (p, k)], sug, exp))
+        # F: COMPONENTS OF (trailing) inside several nested members and alternatives of one type: each of them is expanded
+        base = '%sBase%d' % (q, k)
+        nmem = rng.randint(2, 4)
+        inner = lambda tag, body: 'SEQUENCE { %s1 NULL, %s }' % (tag, body)
+        mems_s = ', '.join('m%d %s' % (j, inner('m%d' % j, 'COMPONENTS OF ' + base)) for j in range(nmem))
+        mems_e = ', '.join('m%d %s' % (j, inner('m%d' % j, 'x1 INTEGER, x2 BOOLEAN')) for j in range(nmem))
+        alts_s = ', '.join('c%d %s' % (j, inner('c%d' % j, 'COMPONENTS OF ' + base)) for j in range(2))
+        alts_e = ', '.join('c%d %s' % (j, inner('c%d' % j, 'x1 INTEGER, x2 BOOLEAN')) for j in range(2))
+        head = 'Mg%d DEFINITIONS AUTOMATIC TAGS ::= BEGIN\n%s ::= SEQUENCE { x1 INTEGER, x2 BOOLEAN }\n' % (k, base)
+        sug = head + 'Nst%d ::= SEQUENCE { %s, pick CHOICE { %s } }\nEND\n' % (k, mems_s, alts_s)
+        exp = head + 'Nst%d ::= SEQUENCE { %s, pick CHOICE { %s } }\nEND\n' % (k, mems_e, alts_e)
+        out.append(('components-of-nested', ['Nst%d' % k], sug, exp))
     return out
 
 
